@@ -17,7 +17,7 @@ Ev(r, d1, p1, d2, p2) == [op |-> "Eval", route |-> r, d1 |-> d1, p1 |-> p1, d2 |
 Px == P4("10.1.1.0/24", 10, 1, 1, 0, 24)
 
 Seeds == <<
-  \* KF-C10-ext-remove-nontransitive
+  \* FX-C10- (repaired; regression seed) ext-remove-nontransitive
   [name |-> "ext-remove-nontransitive", steps |-> <<
      Pol1(<<Stmt("st1", {}, {Act("ext", "remove", 0, 0, {"rt:65001:100"}, "")}, "accept")>>),
      Asg("import", "accept"), Asg("export", "accept"),
@@ -29,45 +29,45 @@ Seeds == <<
      Pol1(<<Stmt("st1", {SC("ext", "es1", "any")}, {}, "reject")>>),
      Asg("import", "accept"), Asg("export", "accept"),
      Ev(Rt(Px, "A", "192.0.2.1", <<65001>>, <<>>, <<"rt:65001:100">>, <<>>, "valid"), "import", "A", "export", "B")>>],
-  \* KF-C10-delstmt-multi
+  \* FX-C10- (repaired; regression seed) delstmt-multi
   [name |-> "delstmt-multi", steps |-> <<
      [op |-> "AddStmt", stmt |-> Stmt("st1", {Cond("aslen", "", "", "ge", 1, {}), Cond("origin", "", "", "", 0, {}),
                                               Cond("rpki", "", "valid", "", 0, {})}, {}, "accept")],
      [op |-> "DelStmt", all |-> FALSE,
       stmt |-> Stmt("st1", {Cond("aslen", "", "", "ge", 1, {}), Cond("origin", "", "", "", 0, {})}, {}, "none")]>>],
-  \* KF-C10-delasg-default
+  \* FX-C10- (repaired; regression seed) delasg-default
   [name |-> "delasg-default", steps |-> <<
      Pol1(<<Stmt("st1", {Cond("rpki", "", "invalid", "", 0, {})}, {}, "reject")>>),
      Asg("import", "accept"), Asg("export", "accept"),
      [op |-> "DelAsg", dir |-> "import", all |-> TRUE, pols |-> <<>>],
      Ev(Rt(Px, "A", "192.0.2.1", <<65001>>, <<>>, <<>>, <<>>, "valid"), "import", "A", "export", "B")>>],
-  \* KF-C10-set-replace-stale
+  \* FX-C10- (repaired; regression seed) set-replace-stale
   [name |-> "set-replace-stale", steps |-> <<
      AddSet("comm", "cs1", {"65001:100"}),
      Pol1(<<Stmt("st1", {SC("comm", "cs1", "any")}, {}, "reject")>>),
      Asg("import", "accept"), Asg("export", "accept"),
      [op |-> "AddSet", kind |-> "comm", name |-> "cs1", members |-> {"65002:100"}, replace |-> TRUE],
      Ev(Rt(Px, "A", "192.0.2.1", <<65001>>, <<"65001:100">>, <<>>, <<>>, "valid"), "import", "A", "export", "B")>>],
-  \* KF-C10-large-add-aliasing
+  \* FX-C10- (repaired; regression seed) large-add-aliasing
   [name |-> "large-add-aliasing", steps |-> <<
      AddSet("neighbor", "ns1", {"10.0.0.1/32"}), AddSet("neighbor", "ns2", {"10.0.1.1/32"}),
      Pol1(<<Stmt("st1", {SC("neighbor", "ns1", "any")}, {Act("large", "add", 0, 0, {"65001:1:2"}, "")}, "accept"),
             Stmt("st2", {SC("neighbor", "ns2", "any")}, {Act("large", "add", 0, 0, {"65002:2:2"}, "")}, "accept")>>),
      Asg("export", "accept"),
      Ev(Rt(Px, "local", "192.0.2.1", <<>>, <<>>, <<>>, <<"65001:1:1">>, "valid"), "export", "A", "export", "C")>>],
-  \* KF-C10-delpol-assigned
+  \* FX-C10- (repaired; regression seed) delpol-assigned
   [name |-> "delpol-assigned", steps |-> <<
      Pol1(<<Stmt("st1", {Cond("rpki", "", "valid", "", 0, {})}, {}, "reject")>>),
      Asg("import", "accept"),
      [op |-> "DelPol", name |-> "p1", all |-> TRUE, preserve |-> FALSE, stmts |-> <<>>],
      Ev(Rt(Px, "A", "192.0.2.1", <<65001>>, <<>>, <<>>, <<>>, "valid"), "import", "A", "export", "B")>>],
-  \* KF-C10-api-origin-cond (read-back through the API)
+  \* FX-C10- (repaired; regression seed) api-origin-cond (read-back through the API)
   [name |-> "api-readback-origin", steps |-> <<
      [op |-> "AddStmt", stmt |-> Stmt("st1", {Cond("origin", "", "", "", 1, {})}, {Act("origin", "", 2, 0, {}, "")}, "accept")],
      [op |-> "AddStmt", stmt |-> Stmt("st2", {Cond("origin", "", "", "", 0, {})}, {}, "none")],
      [op |-> "AddPol", name |-> "p1", refer |-> TRUE, stmts |-> <<BareStmt("st1"), BareStmt("st2")>>],
      [op |-> "SetAsg", dir |-> "import", pols |-> <<"p1">>, def |-> "accept"]>>],
-  \* KF-C10-api-commaction-type (read-back through the API)
+  \* FX-C10- (repaired; regression seed) api-commaction-type (read-back through the API)
   [name |-> "api-readback-commact", steps |-> <<
      [op |-> "AddStmt", stmt |-> Stmt("st2", {}, {Act("ext", "remove", 0, 0, {"rt:65001:100"}, ""),
                                                    Act("large", "add", 0, 0, {"65001:1:1"}, "")}, "none")],
